@@ -621,6 +621,9 @@ def o_panic(tr):
             continue        # executor stall: a liveness verdict, reported by the C02 oracles
         bad.append(("e2e:panic", "an endpoint task panicked: " + m[:300]))
         break
+    if status == "crashed":
+        # the process died (abort on a panic inside a destructor / non-unwinding panic) or refused the scenario
+        bad.append(("e2e:crashed", "the scenario process did not finish: " + tr.end[2][:300]))
     return bad
 
 
